@@ -99,8 +99,8 @@ def check(prop, tier, seed):
     unknown = {n: v for n, v in unknown.items() if v}
     unsupported = [(r['name'], u) for r in reports for u in r['unsupported']]
     bad_canaries = [(r['name'], c) for r in reports for c in r['canaries'] if not c[1]]
-    # a path is abandoned at its first failed obligation: cover points behind it are then not reached, which says
-    # nothing about the preconditions (tasks that check several functions one after the other)
+    # contract drivers give a path up after a failed structural obligation: cover points behind it are then not
+    # reached, which says nothing about the preconditions (tasks that check several functions one after the other)
     pruned = {r['name'] for r in reports if any(o['status'] == 'sat' for o in r['obligations'])}
     bad_covers = [(r['name'], c) for r in reports for c in r['covers']
                   if not c[1] and c[0].endswith('/requires') and r['name'] not in pruned]
